@@ -13,6 +13,7 @@ mod lowprops;
 mod mclass;
 mod qprops;
 mod refsim;
+mod rprops;
 mod runner;
 mod sclass;
 mod sprops;
@@ -22,6 +23,7 @@ use fclass::*;
 use lowprops::*;
 use mclass::*;
 use qprops::*;
+use rprops::*;
 use runner::*;
 use sprops::*;
 use tprops::*;
@@ -137,6 +139,10 @@ fn f_subs(prop: &'static str) -> Vec<(FSub, u32, u32, usize)> {
             (f("c11-timeout-st", None, true), 48, 400, 16),
             (f("c11-timeout-mt", Some(4), true), 32, 300, 16),
         ],
+        "C16" => vec![
+            (f("c16-fault-names-st", None, false), 30_000, 600_000, 16),
+            (f("c16-fault-names-mt", Some(4), false), 3000, 60_000, 4),
+        ],
         "C19" => vec![
             (f("c19-drop-st", None, false), 40_000, 800_000, 16),
             (f("c19-drop-mt", Some(4), false), 5000, 100_000, 4),
@@ -150,7 +156,7 @@ fn rule_for(prop: &str) -> &'static str {
     match prop {
         "C01" => "cases = proptest-generated class-S benches (1-4 scripted models, event sources) + 3-40 driver commands, each executed on the real Simulation and judged by the sequential reference simulator RefSim; non-trivial = >=2 distinct deadlines fired AND (a handler scheduled an event due inside a running step_until window OR a step_until target fell strictly between two deadlines OR same-deadline events on >=2 models); distinct = hash of the JSON case",
         "C07" => "class-S cases biased to coinciding deadlines; non-trivial = a (time, origin, target) group of >=3 events containing a periodic occurrence while another origin is active for the same model and time (or group>=3 with two origins); distinct = hash of the JSON case",
-        "C08" => "validation: class-S cases biased to past/present deadlines and zero periods through all request kinds (5 Scheduler methods, 4 EventSource action kinds, 4 Context methods); non-trivial = at least one request kind with both a rejected and an accepted request in the case. race: scheduler threads racing with stepping; non-trivial = >=100 requests with >=10% accepted and >=10% rejected; distinct = hash of the JSON case",
+        "C08" => "validation: class-S cases biased to past/present deadlines and zero periods through all request kinds (5 Scheduler methods, 4 EventSource action kinds, 4 Context methods); non-trivial = at least one request kind with both a rejected and an accepted request in the case. c08-race: 1-3 real threads issuing schedule_event requests (absolute = time()+d, relative d; 20-2000 per thread) while the driver executes 10-120 step / step_until calls with or without a periodic background; accepted requests fire exactly once at their deadline (relative: within [t_before+d, t_after+d]), rejected ones never, handlers never run at or before the time a call started at, time never decreases, step_until(d) ends exactly d later; non-trivial = >=50 requests, >=1 accepted and >=1 rejected absolute request, and the time advanced during at least one request; distinct = hash of the JSON case",
         "C09" => "class-S cases biased to keyed events and cancellations; non-trivial = a cancellation that took effect in the same time slice as the target's deadline, or a periodic series cancelled after >=1 occurrence; distinct = hash of the JSON case",
         "C10" => "periodic series (t0,p) with commensurable periods, two generated partitions of the horizon, closed-form t0+k*p oracle + partition independence + RefSim; non-trivial = >=3 instants where >=2 series coincide, or >=50 occurrences, or a step_until boundary exactly on an occurrence; distinct = hash of the JSON case",
         "C18" => "class-S cases with a recording scripted clock (Synchronized / OutOfSync(lag) answers, tolerance none/0/tau); non-trivial = >=3 time-advancing steps AND a step_until final jump AND a lag answer on a step that has model work; distinct = hash of the JSON case",
@@ -162,7 +168,7 @@ fn rule_for(prop: &str) -> &'static str {
         "C12" => "c12-queue-seq: generated push/pop/len sequences (1-600 ops, capacities 1-69, one close at a generated position) on the real channel/queue.rs against a VecDeque model (Full gives the message back, Closed after close, accepted messages stay receivable, len() == held, never above capacity); non-trivial = a push met a full queue AND the ring buffer wrapped around. c12-queue-mpsc: 1-3 producer threads pushing 1-3000 numbered messages each with retry on Full, one consumer; per-producer FIFO, exactly once, nothing accepted is lost (also when the consumer closes the queue while producers are pushing), len() == 0 once drained, Closed after close; non-trivial = >=2 producers AND a producer met a full queue; distinct = hash of the JSON case",
         "C15" => "one model, 20-400 events at generated increments (1 ns .. 4.3 s, many carrying into the seconds; start 999_999_000 ns before a second boundary), 1-3 reader threads spinning on Scheduler::time() while the driver steps; oracle = every value read is a time the simulation had, a reader's values never decrease, the read made after the last step returns the final time, handlers read a valid time; non-trivial = a reader saw >=3 distinct times AND two consecutive observations differing in the seconds; distinct = hash of the JSON case",
         "C14" => "class-M cases with 0-6 repliers per requestor (plain/map/filter_map) and with connections added between commands through detached clones of the models' output ports; oracle = reply list of every query == (replier, reply id computed from the mapped request, via) in connection order, process_query reply, and handler multisets that include deliveries through clone-added connections; non-trivial = a query with >=2 repliers and >=1 filtered out, or a clone-added connection in a case with >2 handlers; distinct = hash of the JSON case",
-        "C16" => "class-M hierarchical cases (sub-models to depth 3+, empty names, init scripts that send events and queries); oracle = exactly one init per model during SimInit::init, before any message of that model, never later; messages sent before the recipient's init are in the expansion multiset; Context::name()/error reports use parent.child; non-trivial = sub-models present AND an init that sends to another model; distinct = hash of the JSON case",
+        "C16" => "class-M hierarchical cases (sub-models to depth 3+, empty names, init scripts that send events and queries); oracle = exactly one init per model during SimInit::init, before any message of that model, never later; messages sent before the recipient's init are in the expansion multiset; Context::name() uses parent.child; non-trivial = sub-models present AND an init that sends to another model. c16-cyclic: Deadlock reports list stalled sub-models under their qualified names. c16-fault-names: class-F cases (panic / send to a dropped mailbox injected in hierarchies): the failure report names the failing model by its qualified name; non-trivial = the fault was attributed to a sub-model; distinct = hash of the JSON case",
         "C17" => "c17-sink-api: generated write/read/drain/open/close sequences (1-80 ops, 3 writer clones, capacities 1-39) on EventBuffer and EventSlot against a VecDeque/Option model; non-trivial = buffer overflowed (and capacity>1 or a write while closed) / slot overwritten then read then empty. c17-sim: class-M cases, sink content per (model, output) must be in sending order; non-trivial = a sink holds >=2 sends of one output; distinct = hash of the JSON case",
         "C20" => "generated insert/pull/peek/extract sequences (1-400 ops, key alphabet 0..3 plus random keys) on the real PriorityQueue and IndexedPriorityQueue sources (compiled in with #[path]) against a linear reference (smallest key, then first inserted; extract only through the key issued for that entry); non-trivial = >=2 insertions of an already resident key AND (indexed) a stale key whose slab slot has been reused by a live entry / (plain) the queue ran empty; distinct = hash of the JSON case",
         "C11" => "class-F cases: an acyclic class-M bench plus one generated fault (panic x3 payload kinds in model/sub-model/init, send to a dropped mailbox from a model or a source, self-query deadlock, orphan mailbox, clock lag above tolerance at the k-th step, overrunning handler with a 250 ms timeout), 0-2 step_until-into-the-past commands, 1-6 calls after the fatal error; oracle = predicted error kind and attribution of every command from the expansion, Terminated/no panic/no handling of the injected message/time unchanged afterwards, all handlers run after a non-fatal error; non-trivial = a fatal fault was hit after init and >=2 further calls were made, or a command ran normally after a non-fatal error; distinct = hash of the JSON case",
@@ -211,6 +217,14 @@ fn run_property(prop: &'static str, tier: &str, seed: u64) -> i32 {
                 let n = ctx.n(q, t);
                 ctx.run(&s, n, w);
             }
+            if prop == "C08" {
+                core::TIME_SITES.store(true, std::sync::atomic::Ordering::SeqCst);
+                let n = ctx.n(3000, 60_000);
+                ctx.run(&RSub { mt: None }, n, 4);
+                let n = ctx.n(300, 6_000);
+                ctx.run(&RSub { mt: Some(4) }, n, 4);
+                core::TIME_SITES.store(false, std::sync::atomic::Ordering::SeqCst);
+            }
             if prop == "C10" {
                 let n = ctx.n(40_000, 600_000);
                 ctx.run(&C10Sub { mt: None }, n, 16);
@@ -224,6 +238,13 @@ fn run_property(prop: &'static str, tier: &str, seed: u64) -> i32 {
             for (s, q, t, w) in m_subs(prop) {
                 let n = ctx.n(q, t);
                 ctx.run(&s, n, w);
+            }
+            if prop == "C16" {
+                // names in failure reports (panic / send to a dropped mailbox in a hierarchy)
+                for (s, q, t, w) in f_subs(prop) {
+                    let n = ctx.n(q, t);
+                    ctx.run(&s, n, w);
+                }
             }
             core::set_delay_mode(0, seed);
             if prop == "C17" {
@@ -240,6 +261,8 @@ fn run_property(prop: &'static str, tier: &str, seed: u64) -> i32 {
             core::set_delay_mode(0, seed);
         }
         "C15" => {
+            core::set_delay_mode(1, seed);
+            core::TIME_SITES.store(true, std::sync::atomic::Ordering::SeqCst);
             let n = ctx.n(3000, 60_000);
             ctx.run(&TSub { mt: None }, n, 5);
             let n = ctx.n(1500, 30_000);
@@ -287,6 +310,9 @@ fn replay(path: &str) -> i32 {
     ];
     let mode = std::env::var("VERIF_DELAY_MODE").ok().and_then(|s| s.parse().ok()).unwrap_or(1);
     core::set_delay_mode(mode, 1);
+    if sub.starts_with("c08-race") || sub.starts_with("c15-readers") {
+        core::TIME_SITES.store(true, std::sync::atomic::Ordering::SeqCst);
+    }
     for p in props {
         if p != prop {
             continue;
@@ -311,6 +337,12 @@ fn replay(path: &str) -> i32 {
         }
         if sub == "c15-readers-mt" {
             return replay_one(&TSub { mt: Some(4) }, p, case, path);
+        }
+        if sub == "c08-race-st" {
+            return replay_one(&RSub { mt: None }, p, case, path);
+        }
+        if sub == "c08-race-mt" {
+            return replay_one(&RSub { mt: Some(4) }, p, case, path);
         }
         if sub == "c12-queue-seq" {
             return replay_one(&QSeqSub, p, case, path);
